@@ -371,4 +371,84 @@ theorem into_owned_envelope :
       (Gen.Env.intoOwned.lookup "Question").map (·.map (·.1)) =
         some ["qclass", "qname", "qtype", "unicast_response"]) := by decide
 
+/-! ### 11. the discovery listeners and a failed reply (simple-mdns)
+
+The responders are not the only services that answer queries: a `ServiceDiscovery` answers for its
+own instance. The sync listener sends through `send_packet`, which logs a failed `send_to`; the tokio
+listener runs `process_packet` and logs its error. Either way the loop goes on
+(`Props/C14.lean: responder_loop_survives` is about the same `responderIteration`). -/
+
+theorem discovery_send_policy :
+    policyOf (Gen.Env.discoverySendSync.getD "log") = Mdns.responderSendPolicy ∧
+    policyOf (Gen.Env.discoverySendTokio.getD "log") = Mdns.responderSendPolicy := by decide
+
+/-! ### 12. relations between names (`name.rs`) -/
+
+/-- `Name::is_link_local` with the label it compares the last label with -/
+def isLinkLocalWith (lit : Bytes) (n : Name) : Bool :=
+  match n.getLast? with
+  | some l => eqIgnoreAsciiCase lit l
+  | none => false
+
+/-- `Name::is_subdomain_of` with its length comparison (`>`: strictly longer; `>=` would make every
+name a subdomain of itself) -/
+def isSubdomainOfWith (strict : Bool) (a b : Name) : Bool :=
+  (if strict then decide (a.length > b.length) else decide (a.length ≥ b.length)) &&
+    (b.reverse.zip a.reverse).all (fun p => p.1 == p.2)
+
+/-- the bytes of the label literal, for the literals that can occur here -/
+def labelBytes (s : String) : Bytes := s.toList.map (fun c => UInt8.ofNat c.toNat)
+
+/-- the source's `is_link_local` compares the last label, ignoring ASCII case, with `local`; its
+`is_subdomain_of` demands a strictly longer name and compares labels pairwise from the right; its
+`without` keeps the leading labels, as many as the lengths differ -/
+theorem name_relations_source :
+    Gen.Env.linkLocalLabel.all (· == "local") ∧ Gen.Env.subdomainCmp.all (· == ">") ∧
+    Gen.Env.withoutShape.all (· == "take-length-difference") := by decide
+
+theorem link_local_label (n : Name) :
+    n.isLinkLocal = isLinkLocalWith (labelBytes (Gen.Env.linkLocalLabel.getD "local")) n := by
+  have : labelBytes (Gen.Env.linkLocalLabel.getD "local") = [108, 111, 99, 97, 108] := by decide
+  rw [this]; rfl
+
+theorem subdomain_comparison (a b : Name) :
+    a.isSubdomainOf b = isSubdomainOfWith (Gen.Env.subdomainCmp.getD ">" == ">") a b := by
+  have : (Gen.Env.subdomainCmp.getD ">" == ">") = true := by decide
+  rw [this]; simp [Name.isSubdomainOf, isSubdomainOfWith]
+
+/-- with `>=` the relation would be reflexive: the strictness read from the source matters -/
+example : isSubdomainOfWith false [[97]] [[97]] = true ∧ isSubdomainOfWith true [[97]] [[97]] = false := by decide
+
+/-! ### 13. the response code across the header and the OPT TTL (`rdata/opt.rs`) -/
+
+def extractRcodeWith (mask shift : Nat) (ttl : Nat) (h : Header) : RCODE :=
+  RCODE.ofCode ((((ttl &&& mask) <<< shift) ||| h.rcode.toCode) % 65536)
+
+def encodeTtlWith (mask shift vshift : Nat) (o : OptData) (h : Header) : Nat :=
+  ((h.rcode.toCode &&& mask) >>> shift) ||| (o.version <<< vshift)
+
+/-- the masks are named, the shifts are numbers, in the source as in the model -/
+theorem opt_ttl_source :
+    Gen.Env.optTtlShape.all (· == ["RCODE_MASK", "4", "RCODE_MASK", "4", "VERSION_MASK"]) := by decide
+
+/-- `OPT::extract_rcode_from_ttl` and `OPT::encode_ttl` are the generic functions at the shifts read
+from the source (the two masks are tied as numbers by `Props/Tie.lean: optRcodeMask, optVersionMask`;
+`VERSION_MASK.trailing_zeros()` is 8 for 0xFF00) -/
+theorem opt_ttl_functions (ttl : Nat) (o : OptData) (h : Header) :
+    extractRcode ttl h = extractRcodeWith 0xFF ((Gen.Env.optTtlShifts.getD (4, 4)).1) ttl h ∧
+    encodeTtl o h = encodeTtlWith 0xFF ((Gen.Env.optTtlShifts.getD (4, 4)).2) 8 o h := ⟨rfl, rfl⟩
+
+/-- a shift of 0 in `extract_rcode_from_ttl` would put the extended bits over the header's: extended
+octet 1 with header nibble 0 (BADVERS) would read as FormatError -/
+example : extractRcodeWith 0xFF 0 1 { id := 0, opcode := .StandardQuery, rcode := .NoError, flags := 0, opt := none } = .FormatError ∧
+    extractRcodeWith 0xFF 4 1 { id := 0, opcode := .StandardQuery, rcode := .NoError, flags := 0, opt := none } = .BADVERS := by decide
+
+/-! ### 14. escaping of instance names (simple-mdns) -/
+
+/-- `escaped_instance_name` puts a backslash before `.` and `\\`, and before nothing else;
+`unescaped_instance_name` takes the character after a backslash as it is (the model:
+`Mdns.escapeName`, `Mdns.unescapeName`; `Props/C15.lean` proves the round trip for them) -/
+theorem escape_source :
+    Gen.Env.escapePairs.all (· == [(".", "\\."), ("\\", "\\\\")]) ∧ Gen.Env.unescapeOn.all (· == "\\") := by decide
+
 end Dns.TieEnv
